@@ -205,6 +205,18 @@ func runCase(t *rapid.T, rec *ev.Recorder) {
 			sh.VerifNewEpoch(epoch)
 		}
 	}
+	// Object IDs are content hashes and the engine checks existence before
+	// Shard.Put, so one address never carries two different objects: a repeated
+	// address re-puts the identical object (as replication does).
+	first := map[[2]int]uni.Spec{}
+	canon := func(s uni.Spec) uni.Spec {
+		k := [2]int{s.Cnr, s.ID}
+		if old, ok := first[k]; ok {
+			return old
+		}
+		first[k] = s
+		return s
+	}
 	put := func(s uni.Spec, withBin bool) error {
 		o := uni.Build(s)
 		var bin []byte
@@ -219,7 +231,7 @@ func runCase(t *rapid.T, rec *ev.Recorder) {
 	for i := 0; i < n1; i++ {
 		switch k := rapid.IntRange(0, 19).Draw(t, "p1"); {
 		case k < 11:
-			s := specGen.Draw(t, "spec")
+			s := canon(specGen.Draw(t, "spec"))
 			err := put(s, k%2 == 0)
 			logf("rw put %s -> %v", s, err != nil)
 		case k < 13:
@@ -246,7 +258,7 @@ func runCase(t *rapid.T, rec *ev.Recorder) {
 	// tail: objects that are still in the cache and marks nobody collected
 	nTail := rapid.IntRange(0, 4).Draw(t, "tail-puts")
 	for i := 0; i < nTail; i++ {
-		s := regGen.Draw(t, "tail")
+		s := canon(regGen.Draw(t, "tail"))
 		err := put(s, false)
 		logf("rw put %s -> %v", s, err != nil)
 	}
